@@ -265,12 +265,14 @@ func init() {
 		m := syncState(fr, args[0])
 		fr.i.block(func() bool { return m.writer == 0 && m.readers == 0 }, "Mutex.Lock")
 		m.writer = 1
+		fr.i.sched.cur.held[m] = 2
 		return nil
 	}
 	intrinsics["(*sync.Mutex).TryLock"] = func(fr *frame, args []value) value {
 		m := syncState(fr, args[0])
 		if m.writer == 0 {
 			m.writer = 1
+			fr.i.sched.cur.held[m] = 2
 			return true
 		}
 		return false
@@ -281,6 +283,7 @@ func init() {
 			panic(targetPanic{iface{fr.i.runtimeErrorString, "fatal error: sync: unlock of unlocked mutex"}})
 		}
 		m.writer = 0
+		delete(fr.i.sched.cur.held, m)
 		return nil
 	}
 	intrinsics["(*sync.RWMutex).Lock"] = intrinsics["(*sync.Mutex).Lock"]
@@ -289,6 +292,7 @@ func init() {
 		m := syncState(fr, args[0])
 		fr.i.block(func() bool { return m.writer == 0 }, "RWMutex.RLock")
 		m.readers++
+		fr.i.sched.cur.held[m] = 1
 		return nil
 	}
 	intrinsics["(*sync.RWMutex).RUnlock"] = func(fr *frame, args []value) value {
@@ -297,6 +301,9 @@ func init() {
 			panic(targetPanic{iface{fr.i.runtimeErrorString, "fatal error: sync: RUnlock of unlocked RWMutex"}})
 		}
 		m.readers--
+		if fr.i.sched.cur.held[m] == 1 {
+			delete(fr.i.sched.cur.held, m)
+		}
 		return nil
 	}
 	intrinsics["(*sync.WaitGroup).Add"] = func(fr *frame, args []value) value {
@@ -309,6 +316,7 @@ func init() {
 	}
 	intrinsics["(*sync.WaitGroup).Done"] = func(fr *frame, args []value) value {
 		m := syncState(fr, args[0])
+		fr.i.sched.cur.release(&m.vc)
 		m.count--
 		if m.count < 0 {
 			panic(targetPanic{iface{fr.i.runtimeErrorString, "sync: negative WaitGroup counter"}})
@@ -318,6 +326,7 @@ func init() {
 	intrinsics["(*sync.WaitGroup).Wait"] = func(fr *frame, args []value) value {
 		m := syncState(fr, args[0])
 		fr.i.block(func() bool { return m.count == 0 }, "WaitGroup.Wait")
+		fr.i.sched.cur.acquire(m.vc)
 		return nil
 	}
 	intrinsics["(*sync.WaitGroup).Go"] = nil
@@ -422,6 +431,7 @@ type syncSt struct {
 	writer  int
 	readers int
 	count   int
+	vc      vclock // WaitGroup: history published by Done
 }
 
 // syncState keeps the engine-side state of a sync primitive in the first field
